@@ -421,6 +421,23 @@ Section Proofs.
   Qed.
 End Proofs.
 
+(* the adapters of the process evolve by steps of the product machine that validates the recorded traces (Pending.mstep) *)
+Theorem sstep_ads_mstep maxi s l s' : sstep maxi s l = Some s' ->
+  ads s' = ads s \/ exists al, mstep (ads s) al = Some (ads s').
+Proof.
+  intros E. destruct l as [gl|t a ow|a l]; cbn [sstep] in E.
+  - destruct (ReqId.step maxi (gen s) gl); [|discriminate]. inversion E; subst s'. left. reflexivity.
+  - destruct (nth_error (pcs (gen s)) t) as [[| | |v]|]; try discriminate.
+    destruct (nth_error (ads s) a) as [ad|] eqn:Ea; [|discriminate].
+    destruct (nth_error (born s) a) as [b|]; [|discriminate].
+    destruct (Pending.step ad (LRegister v ow)) as [ad'|] eqn:Es; [|discriminate].
+    inversion E; subst s'. right. exists (a, LRegister v ow). unfold mstep. cbn [fst snd ads]. rewrite Ea, Es. reflexivity.
+  - destruct (is_register l); [discriminate|].
+    destruct (nth_error (ads s) a) as [ad|] eqn:Ea; [|discriminate].
+    destruct (Pending.step ad l) as [ad'|] eqn:Es; [|discriminate].
+    inversion E; subst s'. right. exists (a, l). unfold mstep. cbn [fst snd ads]. rewrite Ea, Es. reflexivity.
+Qed.
+
 (* ---------- non-vacuity ---------- *)
 (* two threads, two adapters (connections): thread 0 allocates an id and registers a call on adapter 0, thread 1
    on adapter 1; the peer of adapter 1 answers with the id of the call on adapter 0 (dropped: adapter 1 has no such entry)
